@@ -34,6 +34,8 @@ def main():
         if sum(1 for x in rep["mismatches"] if x["key"] == key) < 3:
             rep["mismatches"].append(dict(key=key, **d))
 
+    ncase = [0]
+    shared_runner = m.ScenarioRunnerNoTrade()
     for line in open(sys.argv[1]):
         c = json.loads(line)
         if c["k"] != "Aggregate":
@@ -52,9 +54,12 @@ def main():
         lst = [("!" + e[1]) if e[0] == "!" else e[1] for e in c["list"]]
         kinds = {e[0] for e in c["list"]}
         form = "empty" if not lst else "exclusion" if kinds == {"!"} else "inclusion" if kinds == {"+"} else "mixed"
+        # every third case goes through one long-lived runner object (a runner is documented to be reusable), the others through a fresh one
+        ncase[0] += 1
+        runner = shared_runner if ncase[0] % 3 == 0 else m.ScenarioRunnerNoTrade()
         try:
             with contextlib.redirect_stdout(io.StringIO()):
-                world, net_pop, net_pop_fed, results = m.ScenarioRunnerNoTrade().run_model_no_trade(
+                world, net_pop, net_pop_fed, results = runner.run_model_no_trade(
                     title="agg", create_pptx_with_all_countries=False, scenario_option={"scale": "country"}, countries_list=list(lst),
                     return_results=True)
         except BaseException as ex:  # noqa
